@@ -575,6 +575,71 @@ fn module_identifier_leg(ctx: &mut Ctx, host: &Host) {
     }
 }
 
+
+/// runs a list of written-out inputs through the premise filter and the rustc judge
+fn text_leg(ctx: &mut Ctx, host: &Host, label: &str, texts: &[String], cfg_bits: &[usize]) {
+    let mut reported = 0;
+    let mut k = 0usize;
+    for text in texts {
+        for &bits in cfg_bits {
+            k += 1;
+            let cfg = Cfg::from_bits(bits);
+            let Outcome::Ok(o) = comp::compile_rasn1(text, &cfg) else {
+                ctx.class(&format!("{label}:rejected"));
+                continue;
+            };
+            if !o.warnings.is_empty() {
+                ctx.class(&format!("{label}:warnings"));
+                continue;
+            }
+            ctx.case(&format!("{text}{bits}"), true);
+            ctx.class(&format!("leg:{label}"));
+            if let Some(f) = judge_one(host, text, &cfg, &o.generated, &format!("{}{k}", &label[..3])) {
+                let known = f.finding.map_or(false, |id| ctx.is_known(id));
+                ctx.class(&format!("fails:{label}"));
+                if known || reported < 3 {
+                    if !known {
+                        reported += 1;
+                    }
+                    ctx.fail(f);
+                }
+            }
+        }
+    }
+}
+
+/// DEFAULTs (and component values) given by a *reference* to a value assignment of a
+/// structured type: the governing type is a SEQUENCE / SET of in-place scalar members (what
+/// the linker calls constant) or has a member that is not; same module and imported
+fn default_by_reference_leg(ctx: &mut Ctx, host: &Host) {
+    let shapes: [(&str, &str); 9] = [
+        ("SEQUENCE { x INTEGER (0..100), y INTEGER (0..100) }", "{ x 0, y 0 }"),
+        ("SET { b BOOLEAN, n NULL }", "{ b TRUE, n NULL }"),
+        ("SEQUENCE { e ENUMERATED { p, q }, b BOOLEAN }", "{ e q, b FALSE }"),
+        ("SEQUENCE { inner SEQUENCE { k INTEGER (1..5), l BOOLEAN }, f BOOLEAN }", "{ inner { k 2, l TRUE }, f TRUE }"),
+        ("SEQUENCE { s UTF8String, b BOOLEAN }", "{ s \"a\", b TRUE }"),
+        ("SEQUENCE { i INTEGER, b BOOLEAN }", "{ i 70000, b TRUE }"),
+        ("SEQUENCE { i INTEGER (0..10, ...), b BOOLEAN }", "{ i 3, b TRUE }"),
+        ("SET { o OCTET STRING, n NULL }", "{ o '00FF'H, n NULL }"),
+        ("SEQUENCE { x INTEGER (-5..5), y BOOLEAN, z NULL }", "{ x -1, y FALSE, z NULL }"),
+    ];
+    let mut texts = vec![];
+    for (ty, val) in shapes {
+        for host_kind in ["SEQUENCE", "SET"] {
+            texts.push(format!(
+                "Dbr-A DEFINITIONS AUTOMATIC TAGS ::= BEGIN\nPoint ::= {ty}\norigin Point ::= {val}\nShape ::= {host_kind} {{ anchor Point DEFAULT origin, name UTF8String }}\nEND\n"
+            ));
+        }
+        texts.push(format!(
+            "Dbr-A DEFINITIONS EXPLICIT TAGS ::= BEGIN\nPoint ::= {ty}\norigin Point ::= {val}\nEND\nDbr-B DEFINITIONS AUTOMATIC TAGS ::= BEGIN\nIMPORTS Point, origin FROM Dbr-A;\nShape ::= SEQUENCE {{ name UTF8String, anchor Point DEFAULT origin, other [5] Point DEFAULT origin }}\nEND\n"
+        ));
+        texts.push(format!(
+            "Dbr-A DEFINITIONS IMPLICIT TAGS ::= BEGIN\nPoint ::= {ty}\nAlias ::= Point\norigin Point ::= {val}\nsecond Point ::= origin\nShape ::= SEQUENCE {{ anchor Point DEFAULT second, name UTF8String OPTIONAL }}\nEND\n"
+        ));
+    }
+    text_leg(ctx, host, "default-by-reference-to-structured-value", &texts, &[0, 1, 5]);
+}
+
 pub fn run(tier: Tier, seed: u64, replay: Option<String>) -> i32 {
     let mut ctx = Ctx::new("C01", tier, seed);
     ctx.rule = "module sets from the §3 grammar generator (proptest choice streams) x RasnConfig round-robin; \
@@ -604,7 +669,7 @@ pub fn run(tier: Tier, seed: u64, replay: Option<String>) -> i32 {
         replay_one(&mut ctx, &host, &v, false);
     }
 
-    let n = tier.pick(1600, 30000);
+    let n = if std::env::var("VERIF_LEGS_ONLY").is_ok() { 0 } else { tier.pick(1600, 30000) };
     let chunk = 800;
     let mut drv = Driver::new(seed, 1, 5000);
     let mut done = 0usize;
@@ -731,6 +796,7 @@ pub fn run(tier: Tier, seed: u64, replay: Option<String>) -> i32 {
         done += k;
     }
     module_identifier_leg(&mut ctx, &host);
+    default_by_reference_leg(&mut ctx, &host);
     ctx.extra.insert("premise_satisfied".into(), json!(premise));
     ctx.extra.insert("compile_outcomes".into(), json!(outcomes));
     ctx.extra.insert("generated_inputs".into(), json!(done));
